@@ -128,6 +128,9 @@ func verifStub_snappy_Decode(dst, src []byte) ([]byte, error) {
 
 // crc32 is an uninterpreted function of the bytes.
 func verifStub_crc32_ChecksumIEEE(data []byte) uint32 {
+	if len(data) == 0 {
+		return 0 // the CRC-32 of the empty string
+	}
 	return verifUF32("crc32", data)
 }
 
@@ -209,7 +212,12 @@ func (f *verifInflater) Read(p []byte) (int, error) {
 			// produced output: deliver a prefix, then fail
 			k := verifChoice("stub.inflate.prefix", int(all[1])+1)
 			f.data = all[2 : 2+k]
+			// the real inflater reports damage either as corrupt input or,
+			// when it runs off the end of the stream, as an unexpected EOF
 			f.err = errVerifCorrupt
+			if verifNondetBool("stub.inflate.eof") {
+				f.err = io.ErrUnexpectedEOF
+			}
 		} else {
 			// the stream ends where its frame ends; what follows is not read
 			f.data = all[2 : 2+int(all[1])]
